@@ -304,6 +304,18 @@ def _h_fit(ctx, cls, n, n_nan, ypat, params, companions, props, dev_ypat=None):
                 ctx.require(col_equal(list(out3["f"]), col), "C07.repeat-transform", "second transform of the same frame differs")
                 vo_snap2 = json.dumps([[repr(k), [repr(v) for v in obj.values_orders["f"].content[k]]] for k in obj.values_orders["f"]])
                 ctx.require(vo_snap2 == vo_snap and repr(obj.labels_per_values) == lp_snap, "C07.state-mutated-by-transform", "transform altered the fitted state")
+        # ------------------------------------------------------------------ C05: empty and single-row frames
+        if "C05" in props:
+            for sub, what in ((X.iloc[:0], "empty"), (X.iloc[:1], "single-row")):
+                try:
+                    o_ = obj.transform(sub)
+                except Violation:
+                    raise
+                except Exception as e:
+                    ctx.require(False, "C05.internal-error", f"{cls}.transform of an {what} frame raised {type(e).__name__}: {str(e)[:120]}")
+                ctx.require(list(o_.index) == list(sub.index) and list(o_.columns) == list(sub.columns), "C07.index-columns", f"{what} frame: index/columns changed")
+                if what == "single-row" and kept and col is not None:
+                    ctx.require(col_equal(list(o_["f"]), col[:1]), "C07.row-purity", f"single-row frame labelled {list(o_['f'])}, the same row in the full frame {col[:1]}")
         # ------------------------------------------------------------------ C05: fresh unseen rows
         if "C05" in props and kept:
             z1 = ctx.real("z1", feature_value=True)
